@@ -293,7 +293,7 @@ def r11_3(ctx, m):
             qparam = n.func.value.id
     if qparam is None:
         raise AnalysisError("R11.3", wf.where(), "worker does not put results on a queue parameter")
-    batch_loops = [n for n in wf.node.body if isinstance(n, ast.For) and isinstance(n.iter, ast.Name) and n.iter.id in wf.params]
+    batch_loops = [n for n in walk_stmts(wf.node.body) if isinstance(n, ast.For) and isinstance(n.iter, ast.Name) and n.iter.id in wf.params]  # also inside try / with
     ctx.require_count("R11.3", len(batch_loops), 1, wf.where(), "worker loop over its batch")
     loop = batch_loops[0]
     tgt = loop.target
@@ -376,22 +376,35 @@ def r11_3(ctx, m):
 
 
 def r11_4_worker(ctx, m):
+    """Exactly one None sentinel per worker: counted along every normal path through the worker (try / finally included);
+    a sentinel put inside a loop is sent once per iteration."""
     wf = m.worker
     body = wf.node.body
-    sent = []
-    for st in walk_stmts(body):
-        if isinstance(st, ast.Expr) and isinstance(st.value, ast.Call) and isinstance(st.value.func, ast.Attribute) and st.value.func.attr == "put" and st.value.args and isinstance(st.value.args[0], ast.Constant) and st.value.args[0].value is None:
-            sent.append(st)
-    top = [st for st in sent if any(b is st for b in body)]
-    in_loop = [st for st in sent if not any(b is st for b in body)]
-    loops_before = True
-    if top:
-        i = max(i for i, b in enumerate(body) if b is top[-1])
-        loops_before = all(not isinstance(b, (ast.For, ast.While)) for b in body[i + 1 :])
-    ok = len(top) == 1 and not in_loop and loops_before
-    # no early return before the sentinel
+
+    def is_sent(st):
+        return isinstance(st, ast.Expr) and isinstance(st.value, ast.Call) and isinstance(st.value.func, ast.Attribute) and st.value.func.attr == "put" and st.value.args and isinstance(st.value.args[0], ast.Constant) and st.value.args[0].value is None
+
+    sent = [st for st in walk_stmts(body) if is_sent(st)]
+    in_loop = [st for st in sent if any(isinstance(l, (ast.For, ast.While)) and any(x is st for x in ast.walk(l)) for l in walk_stmts(body))]
+    paths = enum_paths(body, rule="R11.4", where=wf.where())
+    counts = set()
+    bad = None
+    loop_after = False
+    for p in paths:
+        if p.term not in ("fall", "return"):
+            continue
+        n = 0
+        for e in p.events:
+            if e.kind == "stmt" and is_sent(e.node):
+                n += 1
+            elif e.kind in ("loop", "stmt") and n and isinstance(e.node, (ast.For, ast.While)):
+                loop_after = True
+        counts.add(n)
+        if n != 1 and bad is None:
+            bad = p
     rets = [st for st in walk_stmts(body) if isinstance(st, ast.Return)]
-    ctx.check(ok and not rets, "R11.4", wf.where(), "the worker puts exactly one None sentinel, after its batch loop, on every normal path", key_of(wf, f"sentinel:{len(top)}top{len(in_loop)}inner{len(rets)}ret"), top_level=len(top), inside_loops=len(in_loop), early_returns=len(rets))
+    ok = counts == {1} and not in_loop and not loop_after
+    ctx.check(ok, "R11.4", wf.where(), "the worker puts exactly one None sentinel, after its batch loop, on every normal path", key_of(wf, f"sentinel:{sorted(counts)}per-path{len(in_loop)}inner{len(rets)}ret"), sentinels_per_path=sorted(counts), inside_loops=len(in_loop), early_returns=len(rets), **({"path": bad.show()} if bad else {}))
 
 
 def r11_5_group(ctx, m, L):
